@@ -147,30 +147,99 @@ func runC09(c *Ctx) {
 	// ---- R09d: validation precedes execution
 	if pt := c.MustFn("R09d", pkgV1, "postTransaction"); pt != nil {
 		validate := c.methodObj(pkgLedger, "Postings", "Validate")
-		var tx2s []*ssa.Call
-		allCalls(pt, func(ci ssa.CallInstruction) {
-			if call, ok := ci.(*ssa.Call); ok && callsFn(ci, fn) {
-				tx2s = append(tx2s, call)
+		// helpers of the handler (request methods, constructors) on the way to the validation or the translation
+		reach := map[*ssa.Function]bool{}
+		var reaches func(g *ssa.Function, depth int) bool
+		reaches = func(g *ssa.Function, depth int) bool {
+			if v, ok := reach[g]; ok {
+				return v
 			}
-		})
-		for _, call := range tx2s {
-			okV := true
-			pr := &PathRule{
-				Step: func(pc *PathCtx, s uint64, ins ssa.Instruction) uint64 {
-					if ci, ok := ins.(ssa.CallInstruction); ok && isCallTo(ci, validate) {
-						return s | 1
+			reach[g] = false
+			r := false
+			allCalls(g, func(ci ssa.CallInstruction) {
+				if isCallTo(ci, validate) || callsFn(ci, fn) {
+					r = true
+				} else if h := staticCallee(ci); h != nil && depth < 3 && len(h.Blocks) > 0 {
+					if pp := fnPkgPath(origin(h)); pp == pkgV1 || pp == pkgLedger {
+						if reaches(h, depth+1) {
+							r = true
+						}
 					}
-					if ins == ssa.Instruction(call) && s&1 == 0 {
+				}
+			})
+			reach[g] = r
+			return r
+		}
+		okV, seenTx := true, false
+		var at token.Pos
+		// pure predicates over the decoded request that are tested more than once (`len(req.Postings) > 0` in a
+		// validation helper and again in the conversion helper): a path keeps the outcome it saw first
+		preds := map[string]int{}
+		pr := &PathRule{
+			MaxDepth: 4,
+			Inline: func(call ssa.CallInstruction) []*ssa.Function {
+				h := staticCallee(call)
+				if h == nil || len(h.Blocks) == 0 || h == fn {
+					return nil
+				}
+				if pp := fnPkgPath(origin(h)); (pp == pkgV1 || pp == pkgLedger) && reaches(h, 0) {
+					return []*ssa.Function{h}
+				}
+				return nil
+			},
+			Step: func(pc *PathCtx, s uint64, ins ssa.Instruction) uint64 {
+				ci, ok := ins.(ssa.CallInstruction)
+				if !ok {
+					return s
+				}
+				if isCallTo(ci, validate) {
+					return s | 1
+				}
+				if callsFn(ci, fn) {
+					seenTx = true
+					at = ins.Pos()
+					if s&1 == 0 {
 						okV = false
 					}
-					return s
-				},
-			}
-			c.RunPaths(pt, 0, pr)
-			c.check(okV, "R09d", "v1.postTransaction:validate-before-translation", call.Pos(), "Postings.Validate precedes TxToScriptData on every path", "v1 postTransaction translates postings that were not validated (negative amounts, malformed addresses)")
+				}
+				return s
+			},
+			Edge: func(pc *PathCtx, s uint64, from *ssa.BasicBlock, si int) (uint64, bool) {
+				iff, ok := from.Instrs[len(from.Instrs)-1].(*ssa.If)
+				if !ok {
+					return s, true
+				}
+				key, neg := canonPredicate(pc, iff.Cond)
+				if key == "" {
+					return s, true
+				}
+				idx, ok := preds[key]
+				if !ok {
+					if len(preds) >= 20 {
+						return s, true
+					}
+					idx = len(preds)
+					preds[key] = idx
+				}
+				holds := (si == 0) != neg
+				tbit, fbit := uint64(1)<<(2+2*idx), uint64(1)<<(3+2*idx)
+				if holds {
+					if s&fbit != 0 {
+						return s, false
+					}
+					return s | tbit, true
+				}
+				if s&tbit != 0 {
+					return s, false
+				}
+				return s | fbit, true
+			},
 		}
-		if len(tx2s) == 0 {
-			c.undecided("R09d", "v1.postTransaction:validate-before-translation", pt.Pos(), "postTransaction does not call TxToScriptData")
+		c.RunPaths(pt, 0, pr)
+		if !seenTx {
+			c.undecided("R09d", "v1.postTransaction:validate-before-translation", pt.Pos(), "postTransaction does not reach TxToScriptData")
+		} else {
+			c.check(okV, "R09d", "v1.postTransaction:validate-before-translation", at, "Postings.Validate precedes TxToScriptData on every path", "v1 postTransaction translates postings that were not validated (negative amounts, malformed addresses)")
 		}
 	}
 	if m.ok {
@@ -471,4 +540,100 @@ func ruleR09f(c *Ctx) {
 	for k, w := range wantSend {
 		c.check(got[k] == w, rule, "OP_SEND:posting."+k, tick.Pos(), "posting."+k+" ← "+w, fmt.Sprintf("OP_SEND fills posting.%s from %s, expected %s: the emitted posting misattributes the movement", k, got[k], w))
 	}
+}
+
+// canonPredicate: a canonical text for a side-effect-free condition over fields of values the path engine can
+// resolve (parameters of inlined helpers are replaced by the caller's values), "" when the condition has another
+// shape. neg reports a leading negation that was stripped.
+func canonPredicate(pc *PathCtx, v ssa.Value) (string, bool) {
+	neg := false
+	for {
+		u, ok := v.(*ssa.UnOp)
+		if !ok || u.Op != token.NOT {
+			break
+		}
+		neg = !neg
+		v = u.X
+	}
+	var canon func(v ssa.Value, depth int) string
+	canon = func(v ssa.Value, depth int) string {
+		if depth > 8 {
+			return ""
+		}
+		v = pc.Resolve(v)
+		switch x := v.(type) {
+		case *ssa.Const:
+			if x.Value == nil {
+				return "nil"
+			}
+			return x.Value.ExactString()
+		case *ssa.Alloc:
+			return fmt.Sprintf("local@%d", x.Pos())
+		case *ssa.Parameter:
+			return fmt.Sprintf("param:%s@%d", x.Name(), x.Parent().Pos())
+		case *ssa.BinOp:
+			a, b := canon(x.X, depth+1), canon(x.Y, depth+1)
+			if a == "" || b == "" {
+				return ""
+			}
+			return "(" + a + " " + x.Op.String() + " " + b + ")"
+		case *ssa.UnOp:
+			if x.Op == token.MUL {
+				if fa, ok := x.X.(*ssa.FieldAddr); ok {
+					b := canon(fa.X, depth+1)
+					if b == "" {
+						return ""
+					}
+					return fmt.Sprintf("%s.#%d", b, fa.Field)
+				}
+				if al, ok := x.X.(*ssa.Alloc); ok {
+					if sv := singleStore(al); sv != nil {
+						return canon(sv, depth+1)
+					}
+				}
+			}
+		case *ssa.FieldAddr:
+			b := canon(x.X, depth+1)
+			if b == "" {
+				return ""
+			}
+			return fmt.Sprintf("&%s.#%d", b, x.Field)
+		case *ssa.Field:
+			b := canon(x.X, depth+1)
+			if b == "" {
+				return ""
+			}
+			return fmt.Sprintf("%s.#%d", b, x.Field)
+		case *ssa.Call:
+			if bi, ok := x.Call.Value.(*ssa.Builtin); ok && bi.Name() == "len" {
+				a := canon(x.Call.Args[0], depth+1)
+				if a == "" {
+					return ""
+				}
+				return "len(" + a + ")"
+			}
+		case *ssa.ChangeType:
+			return canon(x.X, depth+1)
+		}
+		return ""
+	}
+	bo, ok := v.(*ssa.BinOp)
+	if !ok {
+		return "", false
+	}
+	// normalise a comparison and its complement to one key
+	a, b := canon(bo.X, 0), canon(bo.Y, 0)
+	if a == "" || b == "" {
+		return "", false
+	}
+	op := bo.Op
+	switch op {
+	case token.NEQ:
+		op, neg = token.EQL, !neg
+	case token.LEQ:
+		op, neg = token.GTR, !neg
+	case token.GEQ:
+		op, neg = token.LSS, !neg
+	}
+	return "(" + a + " " + op.String() + " " + b + ")", neg
 }
